@@ -111,3 +111,52 @@ func Harness_C18_get() {
 	verifReach("found")
 	verifAssert(verifAnd(pre.hasBody(), cas == uint64(pre.Cas), verifObjHas(pre.Value, P[0]), verifBytesEq(v, verifObjGet(pre.Value, P[0]))), "GetSubDocRaw returns the JSON of exactly the addressed property, with the document's CAS")
 }
+
+// C02 lists WriteSubDoc and SubdocInsert among the CAS-conditional entry points.
+func Harness_C02_writeSubDoc()  { stepSubdoc(false, false) }
+func Harness_C02_subdocInsert() { stepSubdoc(true, false) }
+func Harness_C11_writeSubDoc()  { stepSubdocFrame() }
+
+// C11: a sub-document write changes no document of another collection (same key in both).
+func stepSubdocFrame() {
+	P := verifPropUniverse(2, map[string]any{}, 1)
+	env := verifWorld(true, 2, 2)
+	verifCutEvents()
+	c := env.colls[0]
+	key := verifKey("key")
+	pre := verifGetDoc(env.db, 1, key)
+	verifAssume(verifImplies(pre.hasBody(), verifAnd(pre.IsJSON == 1, verifObjIs(pre.Value), verifObjWellFormed(pre.Value))))
+	raw := verifBytes("raw")
+	snap := verifSnapshot(env.db)
+	_, err := c.WriteSubDoc(context.Background(), key, P[0], verifU64("cas"), raw)
+	if err != nil {
+		verifReach("refused")
+		verifAssert(verifSameDB(env.db, snap), "a refused sub-document write changes nothing")
+		return
+	}
+	verifReach("applied")
+	verifAssert(verifSameDocsExcept(env.db, snap, 1, key), "a sub-document write changes no other document (other keys, other collections)")
+}
+
+// C18-B / C03: two sub-document writers of different properties of one document: no update is lost.
+func Harness_C18_twoWriters() { subdocTwoWriters() }
+func Harness_C03_subdocTwoWriters() { subdocTwoWriters() }
+
+func subdocTwoWriters() {
+	P := verifPropUniverse(2, map[string]any{}, 1)
+	ce := concBegin(true, true)
+	verifAssume(verifAnd(ce.pre.hasBody(), ce.pre.IsJSON == 1, verifObjIs(ce.pre.Value), verifObjWellFormed(ce.pre.Value), len(ce.pre.Value) < 1000))
+	verifAssume(verifObjHas(ce.pre.Value, P[1])) // the second writer removes an existing property
+	ctx := context.Background()
+	var e1, e2 error
+	verifExplore(verifPreemptions() - 1)
+	go func() { _, e1 = ce.c1.WriteSubDoc(ctx, ce.key, P[0], 0, []byte(`"one"`)) }()
+	go func() { _, e2 = ce.c2.WriteSubDoc(ctx, ce.key, P[1], 0, nil) }()
+	verifJoin()
+	verifAssert(verifLiveThreads() == 0, "both operations terminate (no deadlock)")
+	verifAssert(verifAnd(e1 == nil, e2 == nil), "concurrent sub-document writes of different properties succeed")
+	post := verifGetDoc(ce.env.db, 1, ce.key)
+	verifAssert(verifAnd(verifObjHas(post.Value, P[0]), verifBytesEq(verifObjGet(post.Value, P[0]), []byte(`"one"`))), "the first writer's property is set")
+	verifAssert(!verifObjHas(post.Value, P[1]), "the second writer's removal is not lost")
+	verifReach("done")
+}
